@@ -4,6 +4,7 @@ import Falcon.Model.Zp
 import Falcon.Lemmas.ZpZMod
 import Falcon.Lemmas.ZpProduct
 import Falcon.Lemmas.BabaiIdem
+import Falcon.Lemmas.BabaiMultiple
 import Falcon.Lemmas.NttBreadthFirst
 
 /-!
@@ -101,6 +102,17 @@ theorem zp_ntt_is_the_breadth_first_loop_nest (d : Nat) (a : List Nat) (ha : a.l
 
 theorem zp_intt_is_the_breadth_first_loop_nest (d : Nat) (a : List Nat) (ha : a.length = 2 ^ d) :
     Zp.inttRec d 1 a = FftFlt.inttBF Zp.zpOps Zp.TI d a := Zp.inttRec_eq_BF d a ha
+
+/-- **size reduction changes (F, G) only by an integer-polynomial multiple of (f, g)** — the property's sentence, on the
+    big-integer reduction as modelled (floating-point quotients included, whatever they are): the loop returns
+    (F − K⋆f, G − K⋆g) for one integer polynomial K, coefficient for coefficient, for every n = 2^j and every input -/
+theorem model_babai_reduce_changes_by_a_multiple (j size : Nat) (f g : List Int) (hf : f.length = 2 ^ j) (hg : g.length = 2 ^ j)
+    (fStar gStar den : List FftFlt.C) (hfs : fStar.length = 2 ^ j) (hgs : gStar.length = 2 ^ j) (hden : den.length = 2 ^ j)
+    (fuel : Nat) (cF cG : List Int) (h1 : cF.length = 2 ^ j) (h2 : cG.length = 2 ^ j) :
+    ∃ K : List Int, K.length = 2 ^ j ∧
+      (Keygen.babaiBigLoop (2 ^ j) size f g fStar gStar den fuel cF cG).2.1 = RingZ.subL cF (RingZ.negacyc (2 ^ j) K f) ∧
+      (Keygen.babaiBigLoop (2 ^ j) size f g fStar gStar den fuel cF cG).2.2 = RingZ.subL cG (RingZ.negacyc (2 ^ j) K g) :=
+  Keygen.babaiBigLoop_multiple j size f g hf hg fStar gStar den hfs hgs hden fuel cF cG h1 h2
 
 /-- **a second reduction is the identity, for the reductions as modelled** (the floating-point quotient computation
     included, bit for bit what the Rust code does): if `babai_reduce_bigint` returns Ok with (F', G'), reducing (F', G')
